@@ -763,7 +763,7 @@ func runConcurrent(k *vf.Case) {
 				ci, _ = m.Int64Counter("ci")
 				hf, _ = m.Float64Histogram("hf")
 			}
-			for i := 0; i < 200; i++ {
+			for i := 0; i < 400; i++ {
 				o := metric.WithAttributeSet(attribute.NewSet(attribute.Int("a", gr.Intn(L+3)), attribute.Int("g", g%2)))
 				v := int64(1 + gr.Intn(9))
 				ci.Add(ctx, v, o)
@@ -807,9 +807,18 @@ func runConcurrent(k *vf.Case) {
 		return true
 	}
 	close(release)
-	for i := 0; i < 5; i++ {
+	// collections race the recorders for as long as they record (at least five of them)
+	workersDone := make(chan struct{})
+	go func() { wg.Wait(); close(workersDone) }()
+	for i, racing := 0, true; racing || i < 5; i++ {
 		if !collect() {
 			return
+		}
+		k.C.Count("concurrent_collections_racing_recorders", 1)
+		select {
+		case <-workersDone:
+			racing = false
+		default:
 		}
 	}
 	wg.Wait()
@@ -946,6 +955,7 @@ func main() {
 		otel.SetLogger(logr.Discard())
 		c.Isolated("histories", c.N(3200, 40_000), vf.IsoOpts{Batch: 100, Par: 16}, runHistory)
 		c.Isolated("concurrent", c.N(320, 4000), vf.IsoOpts{Batch: 20, Par: 16}, runConcurrent)
+		c.Floor("concurrent_collections_racing_recorders", 3000)
 		c.Isolated("disagree", c.N(600, 8000), vf.IsoOpts{Batch: 100, Par: 16}, runDisagree)
 		c.Floor("disagreeing_reader_histories", 300)
 		c.Floor("streams_compared", 50_000)
